@@ -2,6 +2,7 @@
 package main
 
 import (
+	"math"
 	"fmt"
 	"os"
 	"sort"
@@ -317,7 +318,7 @@ func main() {
 		depth = 8
 	}
 	res.Info["depth"] = depth
-	exps := []time.Duration{-time.Second, 0, E}
+	exps := []time.Duration{-time.Second, 0, E, time.Duration(math.MaxInt64)} // the last one: "practically never" (the largest value the flags accept)
 	states := map[string]struct{}{}
 	nontrivial := map[string]struct{}{}
 	var i int64
